@@ -4,7 +4,7 @@
     exactly what its own one-channel machine reports).  Only property theorems, each closed by
     [exact <lemma>]. *)
 From Verif Require Import Base.Prelude Model.ShortMsg Model.PerChannel Model.CC14 Model.Nrpn
-  Model.Polling Proofs.PerChannelProofs Proofs.PollingProofs.
+  Model.Polling Proofs.PerChannelProofs Proofs.PollingProofs Proofs.PollShift.
 
 (** poll returns a message only if a data entry MSB is pending and at least the timeout has
     passed since it was fed; it is that 7-bit message, and the value is consumed *)
@@ -59,6 +59,22 @@ Theorem C13_unpaired_lsb_never_reported : forall now st ch cn v ns arrival l,
   (is_parameter_number_cn cn = false -> poll_dispatch now st ch cn v = (st, (None, None))).
 Proof. exact unpaired_lsb_never_reported. Qed.
 
+(** the clock has no observable origin: any history of feeds, polls, resets and time steps, run
+    [d] nanoseconds later from a state whose stored arrival time is [d] later too, reports exactly
+    the same and ends in the correspondingly moved state; in particular what a new scanner reports
+    does not depend on when it is started (only differences of instants matter: "at least the
+    configured timeout has passed since it was fed") *)
+Theorem C13_clock_origin_irrelevant : forall d c h now st,
+  run1 pollst out2 poll_f1v poll_p1 poll_reset1 (None, None) c (now + d) (shift d st) h =
+  (let '(now', st', outs) := run1 pollst out2 poll_f1v poll_p1 poll_reset1 (None, None) c now st h in
+   (now' + d, shift d st', outs)).
+Proof. exact clock_origin_irrelevant. Qed.
+
+Theorem C13_new_scanner_any_start : forall d c t h now,
+  snd (run1 pollst out2 poll_f1v poll_p1 poll_reset1 (None, None) c (now + d) (pollst_new t) h) =
+  snd (run1 pollst out2 poll_f1v poll_p1 poll_reset1 (None, None) c now (pollst_new t) h).
+Proof. exact new_scanner_any_start. Qed.
+
 (** non-vacuity: a reachable state with a pending MSB; late poll reports, early poll does not *)
 Theorem C13_example :
   exists st st', fst (feeds_run (pollst_new 5) [(0, Some (0, 99, 1)); (0, Some (0, 98, 2)); (3, Some (0, 6, 7))]) = st
@@ -73,4 +89,6 @@ Print Assumptions C13_early_poll_no_effect.
 Print Assumptions C13_feed_independent_of_time.
 Print Assumptions C13_unpaired_lsb_dropped.
 Print Assumptions C13_unpaired_lsb_never_reported.
+Print Assumptions C13_clock_origin_irrelevant.
+Print Assumptions C13_new_scanner_any_start.
 Print Assumptions C13_example.
